@@ -49,12 +49,15 @@ TokTable ==
                                  b \in (IF Small THEN {"absent"} ELSE {"absent", "v1", "v2"}),
                                  f \in (IF Small THEN {"none"} ELSE {"none", "f1"})} IN
          LET seq == SetToSeq(S) IN
-         [i \in 1..(Len(seq) + 2) |->
+         [i \in 1..(Len(seq) + (IF Small THEN 3 ELSE 2)) |->
             IF i <= Len(seq)
             THEN Tok(Org(seq[i][3]), NoEdit, TRUE, [NoClaims EXCEPT !["ca"] = seq[i][1], !["cb"] = seq[i][2]])
             ELSE IF i = Len(seq) + 1
             THEN Tok(Org("none"), E("flip", "tag", ""), TRUE, [NoClaims EXCEPT !["ca"] = "v1", !["cb"] = "v1"])
-            ELSE Tok(Org("none"), NoEdit, FALSE, NoClaims)]
+            ELSE IF i = Len(seq) + 2
+            THEN Tok(Org("none"), NoEdit, FALSE, NoClaims)
+            \* the authentic token of the table with the header of another protocol of the same purpose
+            ELSE Tok(Org("none"), ERelabel(RelabelTarget(Pr)), TRUE, [NoClaims EXCEPT !["ca"] = "v1"])]
     [] Base = "c05" ->
          LET S == {<<f, a>> : f \in {"none"} \cup C05F, a \in {"none"} \cup C05A} IN
          LET seq == SetToSeq(S) IN
